@@ -5,6 +5,7 @@ import (
 	"go/ast"
 	"go/token"
 	"go/types"
+	"strconv"
 )
 
 // TypeConverter handles conversion of types.Type to ast.Expr with proper package qualifiers.
@@ -202,6 +203,21 @@ func (tc *TypeConverter) TypeToExpr(t types.Type) ast.Expr {
 			return &ast.InterfaceType{Methods: &ast.FieldList{}}
 		}
 		return ast.NewIdent("any")
+	case *types.Struct:
+		// anonymous struct type, e.g. the type of a field DB struct{ DSN string; Timeout time.Duration }
+		fields := &ast.FieldList{}
+		for i := 0; i < typ.NumFields(); i++ {
+			f := typ.Field(i)
+			field := &ast.Field{Type: tc.TypeToExpr(f.Type())}
+			if !f.Embedded() {
+				field.Names = []*ast.Ident{ast.NewIdent(f.Name())}
+			}
+			if tag := typ.Tag(i); tag != "" {
+				field.Tag = &ast.BasicLit{Kind: token.STRING, Value: strconv.Quote(tag)}
+			}
+			fields.List = append(fields.List, field)
+		}
+		return &ast.StructType{Fields: fields}
 	case *types.Signature:
 		params := &ast.FieldList{}
 		for i := 0; i < typ.Params().Len(); i++ {
